@@ -235,6 +235,11 @@ const KINDS: [io::ErrorKind; 18] = [
     io::ErrorKind::UnexpectedEof,
 ];
 
+/// the span id an odd-bodied caller supplies
+fn caller_span(body: u64) -> u64 {
+    0x5eed_0000_0000_0000 + body
+}
+
 fn kind_code(k: io::ErrorKind) -> u64 {
     KINDS.iter().position(|x| *x == k).unwrap_or(16) as u64
 }
@@ -302,9 +307,19 @@ impl World {
         let b = |x: bool| if x { "true" } else { "false" };
         match m {
             Sent::Req { id, deadline_ms, tid, sid, sampled, body } => {
+                // the span id drawn for this request is named after the request id - unless it
+                // is not a fresh draw: the caller's own span id, or one already used on the wire
+                let reused_caller = *sid == caller_span(*body) || *sid == 0;
+                let reused_wire = self.sid_of.iter().any(|(i, s)| *i != *id && *s == *sid);
                 self.sid_of.entry(*id).or_insert(*sid);
-                // the span id drawn for this request is named after the request id
-                format!("MReq {id} {deadline_ms} (mktc {tid} {id} {}) {body}", b(*sampled))
+                let name = if reused_caller {
+                    888_888
+                } else if reused_wire {
+                    777_777
+                } else {
+                    *id
+                };
+                format!("MReq {id} {deadline_ms} (mktc {tid} {name} {}) {body}", b(*sampled))
             }
             Sent::Cancel { id, tid, sid, sampled } => {
                 let name = self
@@ -571,7 +586,9 @@ fn exec_range(w: &Shared, rt: &tokio::runtime::Runtime, ops: &Rc<Vec<Op>>, from:
                     ctx.deadline = Instant::now() + Duration::from_millis(d);
                     ctx.trace_context = trace::Context {
                         trace_id: trace::TraceId::from(tid as u128),
-                        span_id: trace::SpanId::from(0u64),
+                        // callers with an odd body hand in a context that already has a span id
+                        // (as a handler's context has): the client must still mint its own
+                        span_id: trace::SpanId::from(if body % 2 == 1 { caller_span(body) } else { 0u64 }),
                         sampling_decision: if sampled {
                             trace::SamplingDecision::Sampled
                         } else {
@@ -994,8 +1011,17 @@ pub fn gen(rng: &mut Rng, bias: Bias) -> Script {
             3 => ops.push(Op::PollD),
             4 => {
                 // a response: mostly for an id handed out, sometimes unknown / duplicate
-                let id = if !ids_out.is_empty() && rng.chance(5, 6) {
+                let id = if !ids_out.is_empty() && rng.chance(4, 5) {
                     *rng.pick(&ids_out)
+                } else if !ids_out.is_empty() && rng.chance(1, 2) {
+                    // an id no call owns that aliases an outstanding one under truncation
+                    let base = *rng.pick(&ids_out);
+                    match rng.below(4) {
+                        0 => base + (1u64 << 32),
+                        1 => base + (1u64 << 16),
+                        2 => base + (1u64 << 8),
+                        _ => u64::MAX - base,
+                    }
                 } else {
                     rng.range(0, next_id_guess + 3)
                 };
